@@ -43,9 +43,9 @@ SITES = {
     "actor/unbounded_segmented_mailbox.go:UnboundedSegmentedMailbox.Dequeue":
         ["Load:head", "Load:writeIdx", "Load:deqIdx", "Load:data", "Store:data", "Store:deqIdx", "Add:length", "Load:next", "Store:head"],
     "actor/non_blocking_bounded_mailbox.go:NonBlockingBoundedMailbox.Enqueue":
-        ["Load:enqueuePos", "Load:seq", "Store:seq", "CAS:enqueuePos", "Load:enqueuePos"],
+        ["Load:enqueuePos", "Load:seq", "Access:ctx", "Store:seq", "CAS:enqueuePos", "Load:enqueuePos"],
     "actor/non_blocking_bounded_mailbox.go:NonBlockingBoundedMailbox.Dequeue":
-        ["Load:dequeuePos", "Load:seq", "Store:seq", "CAS:dequeuePos", "Load:dequeuePos"],
+        ["Load:dequeuePos", "Load:seq", "Access:ctx", "Access:ctx", "Store:seq", "CAS:dequeuePos", "Load:dequeuePos"],
     "actor/unbounded_fair_mailbox.go:UnboundedFairMailbox.Enqueue": ["MapLoad:senders", "Add:length", "Add:pending", "CAS:active"],
     "actor/unbounded_fair_mailbox.go:UnboundedFairMailbox.Dequeue": ["Store:active", "CAS:active", "Load:length", "Load:pending", "Add:length", "Add:pending"],
     "actor/unbounded_fair_mailbox.go:UnboundedFairMailbox.finalizeSender": ["Store:pending", "Store:active", "Load:pending", "CAS:active"],
@@ -53,7 +53,9 @@ SITES = {
     "actor/unbounded_fair_mailbox.go:activeSenders.dequeue": ["Load:head", "Load:next", "Store:head", "Load:value", "Store:next", "Store:value"],
 }
 # sync.Map operations of the fair mailbox (the senders map decides which sub-queue a sender owns) are points too
-INSTRUMENT_ARGS = {"actor/unbounded_fair_mailbox.go": ["-syncmap"]}
+# ... and so are the PLAIN accesses to a ring cell's payload (`cell.ctx`), which the seq stores are there to order
+INSTRUMENT_ARGS = {"actor/unbounded_fair_mailbox.go": ["-syncmap"],
+                   "actor/non_blocking_bounded_mailbox.go": ["-plain", "ctx"]}
 FACTS = [
     {"file": "actor/pid.go", "suffixes": "pid.Tell", "expect": {"PID.BatchTell": ["pid.Tell"]}},
     {"file": "actor/stash.go", "suffixes": "pid.doReceive,box.Enqueue,box.Dequeue,box.IsEmpty",
@@ -106,12 +108,12 @@ def mb_case(rng, kind, boundaries=1):
     return cfg + " | " + " ; ".join(" ".join(p) for p in progs) + " | " + " ".join(map(str, sched))
 
 
-def preempt_cases(kind, cap=""):
+def preempt_cases(kind, cap="", shapes=((1, 2), (1, 1), (2, 2), (1, 3))):
     """the consumer is parked j atomic steps into a Dequeue (every point of Dequeue / finalizeSender / the map
     operations in turn) while ONE sender completes a burst of whole Enqueues, then the consumer resumes and the
     sender goes on: `0*` = the sender finishes one Enqueue, `1` = one atomic step of the consumer"""
     out = []
-    for a, b in ((1, 2), (1, 1), (2, 2), (1, 3)):
+    for a, b in shapes:
         for d0 in (0, 1):
             if d0 >= a + 1:
                 continue
@@ -119,6 +121,15 @@ def preempt_cases(kind, cap=""):
                 sched = ["0*"] * a + ["1*"] * d0 + ["1"] * j + ["0*"] * b + ["1*"] + ["0*"] * 2
                 progs = "e " * (a + b + 2) + "; " + "d " * (a + b + 4)
                 out.append(f"mb {kind}{cap} | {progs.strip()} | " + " ".join(sched))
+    return out
+
+
+def ring_preempt_cases():
+    """bounded ring: the sender first FILLS the ring (capacity 2 / 4), the consumer is parked at every point of its
+    Dequeue (incl. the plain cell accesses), the sender pushes on into the slot being released"""
+    out = []
+    for c in (2, 4):
+        out += preempt_cases("ring", f" {c}", shapes=((c, 1), (c, 2), (c - 1, 2)))
     return out
 
 
@@ -174,6 +185,8 @@ def gen_cases(rng, tier):
     for kind, cap in (("unbounded", ""), ("segmented", ""), ("ring", " 8")):
         allp = preempt_cases(kind, cap)
         cases += rng.sample(allp, 12 if tier == "quick" else 80)
+    rp = ring_preempt_cases()
+    cases += rp if tier != "quick" else rng.sample(rp, 90)
     for kind in KINDS:
         for _ in range(8 if tier == "quick" else 120):
             cases.append(pct_case(rng, kind, " 8" if kind in ("ring", "bounded") else ""))
@@ -188,7 +201,7 @@ def gen_cases(rng, tier):
 
 
 def search_cases(rng, tier):
-    cases = preempt_cases("fair")
+    cases = preempt_cases("fair") + ring_preempt_cases()
     for kind, cap in (("unbounded", ""), ("segmented", ""), ("ring", " 8")):
         cases += preempt_cases(kind, cap)
     for kind in KINDS:
